@@ -186,7 +186,7 @@ func (p *Program) callMods(ci ssa.CallInstruction, out ModSet) {
 		out.add("alloc", ModHard)
 		key := p.ifaceMethodKey(c.Value.Type(), c.Method.Name())
 		if con, ok := p.ifaceCons[key]; ok && (con.HasAssigns || con.Pure) {
-			p.contractMods(con, out)
+			p.contractMods(con, c.Method.Type().(*types.Signature), out)
 			return
 		}
 		for _, fn := range p.implsOf(c.Value.Type(), c.Method) {
@@ -225,12 +225,14 @@ func (p *Program) callMods(ci ssa.CallInstruction, out ModSet) {
 	}
 }
 
-func (p *Program) contractMods(con *Contract, out ModSet) {
-	for _, a := range con.Assigns {
-		if a == "fresh" {
-			continue
+func (p *Program) contractMods(con *Contract, sig *types.Signature, out ModSet) {
+	if sig != nil {
+		locs, _, err := p.assignLocs(con, sig)
+		if err == nil {
+			for _, l := range locs {
+				out.add(l.array, ModHard)
+			}
 		}
-		out.add(a, ModHard)
 	}
 	for _, g := range con.Ghost {
 		// "#name += n"
@@ -256,7 +258,7 @@ func (p *Program) modsetOf(fn *ssa.Function) ModSet {
 	if con, ok := p.contracts[name]; ok && con.HasAssigns {
 		ms := ModSet{}
 		ms.add("alloc", ModHard)
-		p.contractMods(con, ms)
+		p.contractMods(con, fn.Signature, ms)
 		if hasStr(con.Assigns, "fresh") {
 			for k := range bodyCache[fn] {
 				ms.add(k, ModFresh)
